@@ -681,7 +681,7 @@ func cliCalc(c *cliEnv, r *rand.Rand, cw *CalcWriter, prop, label string, maxT i
 					row := []int64{}
 					for _, x := range f[1:] {
 						v, _ := strconv.ParseFloat(x, 64)
-						row = append(row, toUnits(v))
+						row = append(row, toUnitsSigned(v))
 					}
 					rows = append(rows, row)
 				}
